@@ -2,6 +2,7 @@ package main
 
 import (
 	"fmt"
+	"go/constant"
 	"go/token"
 	"sort"
 
@@ -602,6 +603,25 @@ func runC11(c *Ctx, w *World, r *Report) {
 					for _, cd := range cs {
 						if cd.V == ssa.Value(fn.Params[3]) && !cd.Pol {
 							okPath = true
+						}
+						// first iteration said with a flag: a loop-carried boolean that enters the loop true and is false on
+						// every way round
+						if fp, isPhi := cd.V.(*ssa.Phi); isPhi && cd.Pol && isLoopHeaderPhi(fp) {
+							okFlag := true
+							for k, e := range fp.Edges {
+								c, isC := e.(*ssa.Const)
+								if !isC || c.Value == nil || c.Value.Kind() != constant.Bool {
+									okFlag = false
+									break
+								}
+								back := fp.Block().Dominates(fp.Block().Preds[k])
+								if constant.BoolVal(c.Value) == back {
+									okFlag = false
+								}
+							}
+							if okFlag {
+								okPath = true
+							}
 						}
 						// first iteration: the loop counter equals its first value (no predecessor exists)
 						if bo, ok := cd.V.(*ssa.BinOp); ok && (bo.Op == token.EQL && cd.Pol || bo.Op == token.NEQ && !cd.Pol) {
